@@ -29,8 +29,30 @@ def main():
             n += 1
             if subprocess.run(["git", "-C", root, "apply", p]).returncode != 0:
                 print(d, "patch does not apply"); alarms += 1; continue
+            props = PROPS
+            if os.environ.get("BENIGN_TOUCHED"):
+                # only the properties anchored in (or including rules about) the files this patch touches
+                import json, re
+                touched = set(re.findall(r"^\+\+\+ b/(\S+)", open(p).read(), re.M))
+                anch = {}
+                for line in open(os.path.join(V, "properties.jsonl")):
+                    q = json.loads(line)
+                    for f in q["anchors"]["files"]:
+                        anch.setdefault(f, set()).add(q["id"])
+                props = set()
+                for f in touched:
+                    props |= anch.get(f, set())
+                    if f.startswith("fidget-mesh/"):
+                        props |= {"C08", "C09"}
+                    if f.startswith("fidget-shapes/"):
+                        props |= {"C16", "C17"}
+                    if f.startswith("fidget-core/src/shape/"):
+                        props |= {"C08", "C06", "C07", "C14", "C10"}
+                    if f.startswith("fidget-core/src/types/") or f.startswith("fidget-core/src/vm/") or f.startswith("fidget-jit/"):
+                        props |= {"C06", "C08", "C04", "C20", "C02", "C01"}
+                props = sorted(props) or [d[:3]]
             with cf.ThreadPoolExecutor(max_workers=10) as ex:
-                res = list(ex.map(run, [(pid, root) for pid in PROPS]))
+                res = list(ex.map(run, [(pid, root) for pid in props]))
             subprocess.run("cd %s && git checkout -q -- . && git clean -fdq" % root, shell=True)
             bad = [(pid, keys) for pid, rc, keys in res if rc != 0]
             rows.append((d, bad))
